@@ -13,6 +13,7 @@
 #if !defined(VITA_RANDOM_H)
 #define      VITA_RANDOM_H
 
+#include <cmath>
 #include <cstdlib>
 #include <random>
 
@@ -87,7 +88,11 @@ between(T min, T sup)
   Expects(min < sup);
 
   std::uniform_real_distribution<T> d(min, sup);
-  return d(engine);
+  const T ret(d(engine));
+
+  // `min + u * (sup - min)` can round to `sup` (LWG 2524), e.g. for an
+  // interval a few ulps wide or for the largest `u`: the range is half-open.
+  return ret < sup ? ret : std::nextafter(sup, min);
 }
 
 ///
